@@ -25,16 +25,22 @@ def make_files(rng, nfiles, tier, wd, max_links=4, enc_pool=12, small=False, all
     for k in range(nfiles):
         nl = rng.choice([1, 1, 2, 2, 3, max_links])
         data, Ns, used, kinds = b"", [], set(), []
+        serials = set()          # serial numbers must be unique within a physical stream (Ogg framing rule)
         for li in range(nl):
             d = None
             if rng.chance(1, 3):
                 j = rng.below(len(enc))
-                if j not in used and enc[j]:
+                if j not in used and enc[j] and (specs[j][0] & 0xffffffff) not in serials:
                     used.add(j)
                     d, N = enc[j], specs[j][4]
+                    serials.add(specs[j][0] & 0xffffffff)
                     kinds.append("enc")
             if d is None:
-                d, m = vfgen.handmade_link(rng, rng.choice([5000, 5000, 0x7fff0000, 0x80000000, 0xfff00000]) + (k * 10 + li) % 60000, small=small, allow_trim_begin=allow_trim_begin)
+                ser = rng.choice([5000, 5000, 0x7fff0000, 0x80000000, 0xfff00000]) + (k * 10 + li) % 60000
+                while (ser & 0xffffffff) in serials:
+                    ser += 100003
+                serials.add(ser & 0xffffffff)
+                d, m = vfgen.handmade_link(rng, ser, small=small, allow_trim_begin=allow_trim_begin)
                 N = m["N"]
                 kinds.append("hand")
             data += d
